@@ -21,21 +21,24 @@ const ModPath = "github.com/santhosh-tekuri/raft"
 
 // Check is one harness function with its declared options.
 type Check struct {
-	Prop    string
-	Name    string // function name
-	Pkg     string // package path
-	Tier    string // "quick" (runs in both tiers) or "thorough"
-	Stubs   []string
-	Reach   []string
-	Desc    string
-	Bounds  string
-	Expect  string // "" or "finding:<key>"
-	MaxDec  int
-	MaxConc int
-	Solver  string
-	OnBlock string // "violation": a path blocked forever is a violation (deadlock) instead of inconclusive
-	File    string
-	Fn      *ssa.Function
+	Prop     string
+	Name     string // function name
+	Pkg      string // package path
+	Tier     string // "quick" (runs in both tiers) or "thorough"
+	Stubs    []string
+	Reach    []string
+	Desc     string
+	Bounds   string
+	Expect   string // "" or "finding:<key>"
+	MaxDec   int
+	MaxConc  int
+	Solver   string
+	MaxSteps int    // instruction budget per path (default 2,000,000)
+	OnUnwind string // "violation": exceeding the instruction budget is a violation (livelock) instead of inconclusive
+	Sched    string // "coop": cooperative goroutines (interp/sched.go)
+	OnBlock  string // "violation": a path blocked forever is a violation (deadlock) instead of inconclusive
+	File     string
+	Fn       *ssa.Function
 }
 
 // Validator is a stub-free function run both natively and in the engine (translator validation).
@@ -48,12 +51,12 @@ type Validator struct {
 
 type Loaded struct {
 	Validators []*Validator
-	Prog     *interp.Program
-	Checks   []*Check
-	StubSets map[string]map[string]string // set -> from -> to
-	RepoDir  string
-	Files    []string
-	pkgs     map[string]*ssa.Package
+	Prog       *interp.Program
+	Checks     []*Check
+	StubSets   map[string]map[string]string // set -> from -> to
+	RepoDir    string
+	Files      []string
+	pkgs       map[string]*ssa.Package
 }
 
 func RepoDir() string {
@@ -129,6 +132,12 @@ func parseDirectives(path, pkgPath string, l *Loaded) error {
 					c.Solver = v
 				case "onblock":
 					c.OnBlock = v
+				case "sched":
+					c.Sched = v
+				case "maxsteps":
+					fmt.Sscan(v, &c.MaxSteps)
+				case "onunwind":
+					c.OnUnwind = v
 				default:
 					return fmt.Errorf("%s: unknown key %q in %s", path, k, line)
 				}
